@@ -133,6 +133,16 @@ class AStr:
         return hash(self.tag)
 
 
+class FieldListV:
+    """a list-valued field of the receiver whose content is unknown (e.g. self.phosphosites)"""
+
+    def __init__(self, name):
+        self.name = name
+
+    def __repr__(self):
+        return "FieldListV(%s)" % self.name
+
+
 class AChar:
     def __init__(self, tag):
         self.tag = tag
@@ -422,6 +432,19 @@ class Evaluator:
                     e2[fn.value.id] = ListAcc(tgt.items + [v])
                     outs.append(Path(conds, "live", None, e2))
                 return outs
+        if isinstance(fn, ast.Attribute) and fn.attr == "append" and len(call.args) == 1:
+            try:
+                tgtv = self.eval(fn.value, p.env, fr)
+            except Undecided:
+                tgtv = None
+            if isinstance(tgtv, FieldListV):
+                outs = []
+                for conds, v in self.eval_paths(call.args[0], p, fr):
+                    e2 = dict(p.env)
+                    key = "@app:" + tgtv.name
+                    e2[key] = list(e2.get(key, [])) + [v]
+                    outs.append(Path(conds, "live", None, e2))
+                return outs
         name = _callname(call)
         if name in ("warning_message", "status_message", "print", "print_progress", "running_dotdotdot"):
             return [p]
@@ -476,6 +499,24 @@ class Evaluator:
             if uses == "element":
                 return self.element_loop(s, p, fr, SeqV("seq"), s.target.id, by_index=True,
                                          lo=it.lo, hi=it.hi)
+        if isinstance(it, FieldListV) and isinstance(s.target, ast.Name):
+            # one generic element: the body must be a pure map into list accumulators
+            e2 = dict(p.env)
+            e2[s.target.id] = Rat.atom("@e:" + it.name)
+            lists = {n: v for n, v in p.env.items() if isinstance(v, ListAcc) and not v.items}
+            res = self.exec_block(s.body, [Path([], "live", None, e2)], fr)
+            if len(res) != 1 or res[0].kind != "live":
+                raise Undecided("loop over %s branches" % it.name, fr.f.loc(s))
+            out = dict(p.env)
+            for n in lists:
+                v = res[0].env.get(n)
+                if isinstance(v, ListAcc) and len(v.items) == 1:
+                    out[n] = ("fieldmap", it.name, v.items[0])
+                elif isinstance(v, ListAcc) and not v.items:
+                    pass
+                else:
+                    raise Undecided("loop over %s is not a one-to-one map" % it.name, fr.f.loc(s))
+            return [Path(p.conds, "live", None, out)]
         if isinstance(it, (list, tuple, dict)) and isinstance(s.target, ast.Name):
             # concrete iteration over a literal container (small, finite)
             keys = list(it.keys()) if isinstance(it, dict) else list(it)
@@ -842,6 +883,13 @@ class Evaluator:
         if name in ("In", "NotIn"):
             if isinstance(b, ListAcc):
                 b = list(b.items)
+            if isinstance(a, AChar) and isinstance(b, (list, tuple)) and all(isinstance(x, str) for x in b):
+                c = ("opaque", "%s in %s" % (a.tag, "".join(sorted(b))))
+                return c if name == "In" else c_not(c)
+            if isinstance(b, FieldListV):
+                ra = _as_rat(a)
+                c = ("opaque", "%s in %s" % (_canon(ra) if ra is not None else repr(a), b.name))
+                return c if name == "In" else c_not(c)
             if isinstance(a, str) and isinstance(b, AStr):
                 c = ("opaque", "%r in %s" % (a, b.tag))
                 return c if name == "In" else c_not(c)
@@ -1005,6 +1053,8 @@ class Evaluator:
                     return SeqV("cp")
                 if node.attr == "ComplexityObject":
                     return ObjV("SequenceComplexity")
+                if node.attr == "phosphosites":
+                    return FieldListV("phosphosites")
                 return Rat.atom("F:" + node.attr)
             if base.cls == "SequenceParameters" and node.attr == "SeqObj":
                 return ObjV("Sequence")
@@ -1072,8 +1122,8 @@ class Evaluator:
                 if i is not None and i.equals(Rat.atom(fr.elem[1])):
                     return fr.elem[0]
             i = _as_rat(idx)
-            if i is not None and base.kind == "seq" and i.is_const():
-                return AChar("seq[%d]" % int(i.const_value()))
+            if i is not None and base.kind == "seq":
+                return AChar("seq[%s]" % _canon(i))
             if i is not None:
                 return fatom("el:" + base.key(), i)
             raise Undecided("sequence element at %s" % unparse(sl), fr.f.loc(node))
@@ -1350,6 +1400,8 @@ class Evaluator:
                 return Rat.const(len(a))
             if isinstance(a, AStr):
                 return Rat.atom("len(%s)" % a.tag)
+            if isinstance(a, FieldListV):
+                return Rat.atom("len(%s)" % a.name)
             if isinstance(a, ListAcc):
                 return Rat.const(len(a.items))
         if name in ("list", "tuple", "sorted") and len(args) == 1:
